@@ -12,6 +12,7 @@ import (
 	"fmt"
 	mrand "math/rand"
 	"strings"
+	"time"
 
 	"verifharness/mon"
 	"verifharness/world"
@@ -83,9 +84,28 @@ func crashBytes(b []byte) string {
 		}},
 		{"validate.RawTdxQuote", func() { _ = validate.RawTdxQuote(b, &validate.Options{}) }},
 	} {
-		if pv, st := mon.Guard(ep.f); pv != "" {
-			return ep.name + " panics: " + pv + "\n" + st
+		if p := guardHang(ep.name, ep.f); p != "" {
+			return p
 		}
+	}
+	return ""
+}
+
+// hangBudget: how long one call may take before it is suspected to hang (then re-run alone with 10x).
+const hangBudget = 30 * time.Second
+
+// guardHang runs one entry-point call; a panic or a call that does not return is reported.
+func guardHang(name string, f func()) string {
+	pv, st, hung := mon.GuardTimed(f, hangBudget)
+	if hung {
+		// slow or hung? the same call again, alone, with ten times the budget
+		if _, _, again := mon.GuardTimed(f, 10*hangBudget); again {
+			return name + " does not return (no result after " + (10 * hangBudget).String() + ", alone)"
+		}
+		return ""
+	}
+	if pv != "" {
+		return name + " panics: " + pv + "\n" + st
 	}
 	return ""
 }
@@ -136,8 +156,8 @@ func crashMsg(m *pb.QuoteV4, cs *world.Case) string {
 		}},
 	}
 	for _, ep := range eps {
-		if pv, st := mon.Guard(ep.f); pv != "" {
-			return ep.name + " panics: " + pv + "\n" + st
+		if p := guardHang(ep.name, ep.f); p != "" {
+			return p
 		}
 	}
 	return ""
@@ -151,8 +171,8 @@ func crashDER(val []byte) string {
 		for len(c.Extensions) < n {
 			c.Extensions = append(c.Extensions, pkix.Extension{Id: []int{2, 5, 29, 14 + len(c.Extensions)}, Value: []byte{4, 0}})
 		}
-		if pv, st := mon.Guard(func() { _, _ = pcs.PckCertificateExtensions(c) }); pv != "" {
-			return "pcs.PckCertificateExtensions panics: " + pv + "\n" + st
+		if p := guardHang("pcs.PckCertificateExtensions", func() { _, _ = pcs.PckCertificateExtensions(c) }); p != "" {
+			return p
 		}
 	}
 	return ""
@@ -407,7 +427,7 @@ func c10(x *mon.Ctx) {
 	}
 	x.Level = "exploration"
 	x.Rule = "every public parsing / serialisation / verification / validation / chain-extraction / PCK-extension / RTMR entry point is called, inside recover(), on: the hostile byte corpus (truncations, size-field boundary values and pairs, re-sizes, random mutation, degenerate inputs); every single structural mutation of a valid QuoteV4 message (each sub-message nil/empty, each bytes field at length 0/n-1/n+1/2n/70000, RTMR count 0..6 and odd entries, numeric fields at boundary values) plus nil / typed-nil / foreign-typed quotes; hostile endpoint responses (bodies: nil, garbage, truncated, 12000-deep JSON, out-of-range numbers, null members, wrong types; issuer-chain headers: nil map, empty list, bad escapes, 1/3 certificates, RSA / Ed25519 / P-384 / P-224 certificates in every slot; garbage CRLs) in every endpoint slot of an otherwise honest world; hostile DER in the SGX extension (all truncations, every byte retagged, random edits), both directly and through really signed leaf certificates. Only 'returned' is allowed; a recovered panic is a violation with its stack; a fatal error kills the worker and is attributed through the breadcrumb. Non-trivial = the call returned; distinct = distinct labelled input."
-	x.Assume = []string{"hangs are detected only by the per-run watchdog (the library has no unbounded loop on these paths)"}
+	x.Assume = []string{"a call that has not returned after 30 s is re-run alone with 300 s before it is called a hang; the scripted-collateral verification cases rely on the per-run watchdog"}
 
 	// 1. byte corpus
 	corpus := byteCorpus(x)
